@@ -118,14 +118,23 @@ namespace
   {
     const unsigned ntri = unsigned(n * (n - 1) / 2);
     int p[n]; for(int i = 0; i < n; ++i) p[i] = i;
+    // n >= 5 (hard-coded cofactor formulas of Tiny::Matrix for 5x5 and 6x6): sampled - every (n!/12)-th permutation, 12 masks for L and for U
+    const bool sampled = (n >= 5);
+    const unsigned full = (ntri >= 32u) ? 0xffffffffu : ((1u << ntri) - 1u);
+    auto mask = [&](unsigned k) -> unsigned { if(!sampled) return k; const unsigned m[4] = {0u, full, 0x55555555u & full, 0xaaaaaaaau & full}; return k < 4 ? m[k] : ((k * 2654435761u) >> 3) & full; };
+    const unsigned nmask = sampled ? 12u : (1u << ntri);
+    long perm_no = -1; long nperm = 1; for(int i = 2; i <= n; ++i) nperm *= i;
     do
     {
+      ++perm_no;
+      if(sampled && (perm_no % (nperm / 12)) != 0) continue;
       for(int dvar = 0; dvar < (n <= 3 ? 4 : 2); ++dvar)
-      for(unsigned lm = 0; lm < (1u << ntri); ++lm)
-      for(unsigned um = 0; um < (1u << ntri); ++um)
+      for(unsigned lmi = 0; lmi < nmask; ++lmi)
+      for(unsigned umi = 0; umi < nmask; ++umi)
       for(int sc = 0; sc < 3; ++sc)
       {
         if(!c.want()) continue;
+        const unsigned lm = mask(lmi), um = mask(umi);
         Fam<n> f; f.build(lm, um, dvar, p);
         // magnitude alphabet: A scaled by exactly 1, 2^+100, 2^-100 (inverse and determinant scale exactly; no overflow up to n = 4)
         const int e2 = (sc == 0) ? 0 : (sc == 1 ? 100 : -100);
@@ -145,22 +154,32 @@ namespace
           const Tiny::Matrix<double, n, n> a0(a);
           b.set_inverse(a);
           bool eq = true, unit = true, unch = true;
+          double amax_t = 0.0; for(int i = 0; i < n; ++i) for(int j = 0; j < n; ++j) amax_t = std::max(amax_t, std::fabs(double(f.Ai[i][j])));
           for(int i = 0; i < n; ++i) for(int j = 0; j < n; ++j)
           {
-            if(b[i][j] != double(f.Ai[i][j])) eq = false;
             LD s = 0; for(int k = 0; k < n; ++k) s += LD(a[i][k]) * LD(b[k][j]);
-            if(s != (i == j ? 1.0L : 0.0L)) unit = false;
+            if(n <= 4)
+            {
+              if(b[i][j] != double(f.Ai[i][j])) eq = false;
+              if(s != (i == j ? 1.0L : 0.0L)) unit = false;
+            }
+            else
+            {
+              // the 5x5 / 6x6 cofactor expansions exceed 53 bits on this family: compared within 1e-12
+              if(!(std::fabs(b[i][j] - double(f.Ai[i][j])) <= 1e-12 * amax_t)) eq = false;
+              if(!(fabsl(s - (i == j ? 1.0L : 0.0L)) <= 1e-11L)) unit = false;
+            }
             if(a[i][j] != a0[i][j]) unch = false;
           }
           chk(c, eq, "inverse.tiny-set_inverse n=" + std::to_string(n), [&]{ return f.str() + ": set_inverse differs from the exact inverse"; });
           chk(c, unit, "inverse.tiny-A*inv!=I n=" + std::to_string(n), [&]{ return f.str() + ": A*inv(A) != I"; });
           chk(c, unch, "inverse.tiny-input-modified n=" + std::to_string(n), [&]{ return f.str(); });
           const double dt = a.det();
-          chk(c, dt == double(f.det), "inverse.tiny-det n=" + std::to_string(n), [&]{ return f.str() + ": det=" + std::to_string(dt) + " expected " + std::to_string(double(f.det)); });
+          chk(c, (n <= 4) ? (dt == double(f.det)) : (std::fabs(dt - double(f.det)) <= 1e-12 * std::fabs(double(f.det))), "inverse.tiny-det n=" + std::to_string(n), [&]{ return f.str() + ": det=" + std::to_string(dt) + " expected " + std::to_string(double(f.det)); });
           c.count("tiny_inversions");
         }
-        // ---- Math::invert_matrix (generic Gauss-Jordan; the path Tiny takes for n >= 7), with stride n and stride n+1
-        for(int extra = 0; extra < 2; ++extra)
+        // ---- Math::invert_matrix (generic Gauss-Jordan; the path Tiny takes for n >= 7), with stride n and stride n+1 (size-generic code: n <= 4 only)
+        for(int extra = 0; extra < (n <= 4 ? 2 : 0); ++extra)
         {
           const int stride = n + extra;
           double a[n * (n + 1)]; int piv[n];
@@ -218,6 +237,6 @@ int main(int argc, char** argv)
   spec.assumptions = {"exact inverse = U^-1 L^-1 P^T by substitution in long double (all divisions by +-2^k, every intermediate exactly representable)",
     "Math::invert_matrix documents that a non-normal returned determinant means failure; it pivots on diagonal entries only, so regular matrices with "
     "vanishing diagonal pivots are rejected - these are counted (invert_matrix_regular_rejected), not reported as violations",
-    "hard-coded set_inverse sizes 5 and 6 are not enumerated"};
-  return verif::run(spec, argc, argv, [&](verif::Ctx& c) { run_n<1>(c); run_n<2>(c); run_n<3>(c); run_n<4>(c); });
+    "set_inverse / det of sizes 5 and 6 (hard-coded cofactor expansions) are sampled (12 permutations x 12 L masks x 12 U masks x 2 diagonals x 3 scalings) and compared within 1e-12; sizes >= 7 use Math::invert_matrix"};
+  return verif::run(spec, argc, argv, [&](verif::Ctx& c) { run_n<1>(c); run_n<2>(c); run_n<3>(c); run_n<4>(c); run_n<5>(c); run_n<6>(c); });
 }
